@@ -97,6 +97,11 @@ chk("C06", "abstract simulation of MIR under fixed enum discriminants: owes-tabl
     "Trusted: rustc MIR; the abstraction that an entry in a state that pops a block exists only while that block is pushed. Name-resolution results are not computed.",
     "DESIGN.md section 4 C06")
 
+chk("C07", "symbolic sequence analysis over the syntax tree: values popped vs values handed to RestoreValues at each of ~150 error sites (reverse-equality), callee-pop summaries, inherited context at the two dispatchers; MIR: effect-before-error on eval_expr's fallible calls, Err-edge restore in eval::eval",
+    "For every error path of every step function the values pushed back are exactly the values popped, in reverse order, and no continuation stays scheduled when a helper fails; so re-running the failed step sees the same machine state. Decided per site for all programs; message text and side effects of re-running are not decided.",
+    "Trusted: syn parse, rustc MIR; the walker's idiom set (vec! literals, pushes, for-loops over args, mirrored pop vectors, optional pop groups) - a construction outside it is reported, not assumed.",
+    "DESIGN.md section 4 C07")
+
 ENGINES = [
  {"name": "gfacts", "path": "tools/gfacts", "kind_free_text": "rustc_private driver (nightly) dumping the type-checked MIR (CFG, resolved callees, asserts, places with field names) of every function of the garden crate as JSON; run as RUSTC_WORKSPACE_WRAPPER under cargo +nightly check on /repo's current tree"},
  {"name": "gshape", "path": "tools/gshape", "kind_free_text": "syn-2 syntax tree dumper (match arms, patterns, literals, struct initialisers) for table/shape rules"},
